@@ -124,14 +124,23 @@ Proof. exact no_deadlock. Qed.
 Theorem dd_bounded_work : forall c progs s sc, R c progs s -> (moves glob loc tstep s sc <= mu s)%nat.
 Proof. exact bounded_work. Qed.
 (* existence form: from every reachable state there is a schedule of at most mu(s) steps after which every thread
-   has finished, provided the states passed through meet the client obligation about DestroyContainer
-   (gate_ok = the hypothesis of dd_no_deadlock: a thread waiting at the gate has no later container operation and
-   is the only one there) *)
-Theorem dd_eventually_finishes : forall c progs s, R c progs s ->
+   has finished, provided the programs meet the client obligation about DestroyContainer, a decidable condition:
+   dc_wf progs = at most one DestroyContainer in all the programs, and in its thread only Drop operations after it *)
+Theorem dd_eventually_finishes : forall c progs s, R c progs s -> dc_wf progs = true ->
+  exists sc, sched_ok any_choice sc /\ (length sc <= mu s)%nat /\
+             all_fin glob loc fin (run glob loc tstep s sc) = true.
+Proof. exact eventually_finishes_wf. Qed.
+(* the same from the semantic form of the obligation (gate_ok = the hypothesis of dd_no_deadlock: a thread waiting at
+   the gate has no later container operation and is the only one there), required of the states passed through *)
+Theorem dd_eventually_finishes_gate : forall c progs s, R c progs s ->
   (forall s', reachable glob loc tstep s s' -> gate_ok s') ->
   exists sc, sched_ok any_choice sc /\ (length sc <= mu s)%nat /\
              all_fin glob loc fin (run glob loc tstep s sc) = true.
 Proof. exact eventually_finishes. Qed.
+(* dc_wf programs never deadlock: a state in which nothing can move has every program finished *)
+Theorem dd_no_deadlock_wf : forall c progs s, R c progs s -> dc_wf progs = true -> quiescent glob loc tstep s ->
+  all_fin glob loc fin s = true.
+Proof. exact no_deadlock_wf. Qed.
 
 (* ---------- non-vacuity: the hypotheses are met by concrete reachable states ---------- *)
 Definition one (n : nat) : list (nat * nat) := repeat (0, 0)%nat n.
@@ -197,3 +206,18 @@ Example ex_bounded_work_chain :
   moves glob loc tstep s sc = 40 /\ length sc <= mu s /\ all_fin glob loc fin s' = true /\
   dlog (gh (gl s')) = [7; 6; 5; 4; 3; 2; 1] /\ cblog (gh (gl s')) = [7; 6; 5; 4; 3; 2; 1] /\ mu s' = 0.
 Proof. vm_compute. repeat split; try (eexists; eexists; split; reflexivity); auto; lia. Qed.
+
+(* the condition on the programs: true for the chain example (one DestroyContainer, last operation of its thread),
+   false when a container operation follows DestroyContainer in its thread or when two threads destroy the container *)
+Example ex_dc_wf : dc_wf ex_chain_progs = true /\ dc_wf [[Add 1 0 0; DestroyContainer; Drop 1]; [Size; Drop 1]] = true /\
+  dc_wf [[DestroyContainer; Size]] = false /\ dc_wf [[DestroyContainer]; [DestroyContainer]] = false.
+Proof. vm_compute. repeat split. Qed.
+(* ... and the violating program really gets stuck: the gate waits for the Size that comes after it *)
+Example ex_dc_wf_needed :
+  let s := st_of cfg_cb [[DestroyContainer; Size]] (one 3) in
+  quiescent glob loc tstep s /\ all_fin glob loc fin s = false /\ head_is s 0 IDcGate /\ busy (gl s) = 2.
+Proof.
+  split; [|vm_compute; split; [reflexivity|split; [eexists; eexists; split; reflexivity|reflexivity]]].
+  intros t c _ [l [r [Hl Hs]]]. destruct t as [|t]; [|destruct t; discriminate Hl].
+  vm_compute in Hl. inversion Hl; subst. discriminate Hs.
+Qed.
